@@ -93,7 +93,7 @@ theorem C19_symbol_answer (c : Config) (st : State) (h : build c = .ok st) (n : 
     (∀ a, respond st (.fileContainingSymbol n) = .ok a →
       ∃ f, a = .fileDescriptor f ∧ f ∈ c.files ∧ Declares f n) ∧
     (∀ e, respond st (.fileContainingSymbol n) = .error e →
-      e.1 = Code.notFound ∧ ∀ f ∈ c.files, Unconflicted c.files f → ¬ Declares f n) := by
+      e = Code.notFound ∧ ∀ f ∈ c.files, Unconflicted c.files f → ¬ Declares f n) := by
   simp only [respond]
   cases hl : assoc n st.symbols with
   | some f =>
@@ -114,7 +114,7 @@ theorem C19_file_answer (c : Config) (st : State) (h : build c = .ok st) (nm : N
       ∃ g, a = .fileDescriptor g ∧ g ∈ c.files ∧ g.name = some nm ∧
         ∀ f ∈ c.files, f.name = some nm → Unconflicted c.files f → g = f) ∧
     (∀ e, respond st (.fileByFilename nm) = .error e →
-      e.1 = Code.notFound ∧ ∀ f ∈ c.files, f.name ≠ some nm) := by
+      e = Code.notFound ∧ ∀ f ∈ c.files, f.name ≠ some nm) := by
   simp only [respond]
   cases hl : assoc nm st.files with
   | some g =>
@@ -135,9 +135,9 @@ theorem C19_file_answer (c : Config) (st : State) (h : build c = .ok st) (nm : N
 registered file has, are answered with that status (which ends the stream). -/
 theorem C19_unknown_not_found (c : Config) (st : State) (h : build c = .ok st) :
     (∀ n, (∀ f ∈ c.files, ¬ Declares f n) →
-      ∃ m, respond st (.fileContainingSymbol n) = .error (Code.notFound, m)) ∧
+      respond st (.fileContainingSymbol n) = .error Code.notFound) ∧
     (∀ nm, (∀ f ∈ c.files, f.name ≠ some nm) →
-      ∃ m, respond st (.fileByFilename nm) = .error (Code.notFound, m)) := by
+      respond st (.fileByFilename nm) = .error Code.notFound) := by
   constructor
   · intro n hno
     simp only [respond]
@@ -145,14 +145,14 @@ theorem C19_unknown_not_found (c : Config) (st : State) (h : build c = .ok st) :
     | some f =>
       obtain ⟨h1, h2, -⟩ := C19_symbol_sound c st h n f hl
       exact absurd h2 (hno f h1)
-    | none => exact ⟨_, rfl⟩
+    | none => rfl
   · intro nm hno
     simp only [respond]
     cases hl : assoc nm st.files with
     | some g =>
       obtain ⟨h1, h2⟩ := C19_file_sound c st h nm g hl
       exact absurd h2 (hno g h1)
-    | none => exact ⟨_, rfl⟩
+    | none => rfl
 
 /-- The service list when `with_service_name` was never called: exactly the services declared by
 the served files — as a list, in the order they are examined, and as a set. -/
@@ -229,7 +229,7 @@ theorem C19_stream_answers (st : State) (reqs : List Request) :
       ∃ r, reqs[i]? = some r ∧ respond st r.messageRequest = .ok a.answer ∧
         a.validHost = r.host ∧ a.originalRequest = r) ∧
     ((runStream st reqs).2 = none → (runStream st reqs).1.length = reqs.length) ∧
-    (∀ e : Code × Bytes, (runStream st reqs).2 = some e →
+    (∀ e : Code, (runStream st reqs).2 = some e →
       ∃ r : Request, reqs[(runStream st reqs).1.length]? = some r ∧
         respond st r.messageRequest = .error e) := by
   induction reqs with
